@@ -377,42 +377,59 @@ def nontrivial(h, out):
 
 # ----------------------------------------------------------------------------- shrinking
 
-def shrink(ctx, pid, exe, h, bad, cfg_term, excused, budget=12):
-    """greedy removal of operations / transactions while the first verdict keeps its class and code"""
+def shrink(ctx, pid, exe, h, bad, cfg_term, excused, budget=14):
+    """delta debugging on the operation list (chunks first, then single operations, then single
+    transactions inside an operation) while the first verdict keeps its class and code"""
     def key(v):
         return (v[0][0], v[0][1] % 100 if v[0][0] == 2 else 0)
     want = key(bad)
     cur = h
-    for _ in range(budget):
+
+    def candidates(ops, chunk):
         cands = []
-        ops = cur["ops"]
-        for i in range(1, len(ops)):
-            cands.append(ops[:i] + ops[i + 1:])
-        for i, o in enumerate(ops):
-            l = o[4] if o[0] == 0 else o[1] if o[0] == 2 else None
-            if l and len(l) > 1:
-                for j in range(len(l)):
-                    o2 = list(o)
-                    o2[4 if o[0] == 0 else 1] = l[:j] + l[j + 1:]
-                    cands.append(ops[:i] + [o2] + ops[i + 1:])
-        if not cands:
-            break
-        cands = cands[:400]
-        hs = [dict(cfg=cur["cfg"], ledger=cur["ledger"], univ=universe(c), ops=c, tag=cur.get("tag", "")) for c in cands]
-        outs, err = run_impl(exe, hs)
-        if outs is None:
-            break
-        vs = judge(ctx, pid, hs, outs, "%s_shrink" % pid, cfg_term, excused)
-        if vs is None:
-            break
+        n = len(ops)
+        if chunk > 1:
+            for i in range(1, n, chunk):
+                cands.append(ops[:i] + ops[i + chunk:])
+            # also drop everything after a prefix (the failure step usually ends the history)
+            for cut in range(n - 1, 1, -max(1, chunk // 2)):
+                cands.append(ops[:cut])
+        else:
+            for i in range(1, n):
+                cands.append(ops[:i] + ops[i + 1:])
+            for i, o in enumerate(ops):
+                l = o[4] if o[0] == 0 else o[1] if o[0] == 2 else None
+                if l and len(l) > 1:
+                    for j in range(len(l)):
+                        o2 = list(o)
+                        o2[4 if o[0] == 0 else 1] = l[:j] + l[j + 1:]
+                        cands.append(ops[:i] + [o2] + ops[i + 1:])
+        return cands[:300]
+
+    chunk = max(1, len(cur["ops"]) // 2)
+    rounds = 0
+    while rounds < budget:
+        rounds += 1
+        cands = candidates(cur["ops"], chunk)
         nxt = None
-        for hh, v in zip(hs, vs):
-            if key(v) == want:
-                if nxt is None or len(json.dumps(hh["ops"])) < len(json.dumps(nxt["ops"])):
+        if cands:
+            hs = [dict(cfg=cur["cfg"], ledger=cur["ledger"], univ=universe(c), ops=c, tag=cur.get("tag", "")) for c in cands]
+            outs, err = run_impl(exe, hs)
+            if outs is None:
+                break
+            vs = judge(ctx, pid, hs, outs, "%s_shrink" % pid, cfg_term, excused)
+            if vs is None:
+                break
+            for hh, v in zip(hs, vs):
+                if key(v) == want and (nxt is None or len(json.dumps(hh["ops"])) < len(json.dumps(nxt["ops"]))):
                     nxt = hh
-        if nxt is None:
+        if nxt is not None:
+            cur = nxt
+            chunk = max(1, min(chunk, len(cur["ops"]) // 2))
+        elif chunk > 1:
+            chunk //= 2
+        else:
             break
-        cur = nxt
     return cur
 
 
